@@ -27,6 +27,12 @@ pub(crate) struct Batch {
 	// the pipeline overwrites it before the batch is written to WAL.
 	pub(crate) starting_seq_num: u64,
 	pub(crate) size: u64, // Total size of all records (not serialized)
+	// Where the commit pipeline logged this batch (not serialized): the WAL
+	// segment that holds its record, and whether the commit asked for an
+	// fsync. `LsmCommitEnv::apply` needs both when a memtable rotation has
+	// moved on to a newer segment before the batch is applied.
+	pub(crate) logged_in_wal: u64,
+	pub(crate) logged_with_sync: bool,
 }
 
 impl Default for Batch {
@@ -43,6 +49,8 @@ impl Batch {
 			version: BATCH_VERSION,
 			starting_seq_num,
 			size: 0,
+			logged_in_wal: 0,
+			logged_with_sync: false,
 		}
 	}
 
@@ -287,6 +295,8 @@ impl Batch {
 			valueptrs,
 			starting_seq_num: seq_num,
 			size: 0, // Decoded batches don't track size
+			logged_in_wal: 0,
+			logged_with_sync: false,
 		})
 	}
 }
